@@ -49,6 +49,12 @@ func (op *EditCommentOperation) Apply(snapshot *Snapshot) {
 		return
 	}
 
+	// The combined Id only holds a part of the target Id: make sure that the comment we
+	// matched on was really created by the targeted operation, otherwise the edit is a no-op
+	if c, err := snapshot.SearchComment(combinedId); err == nil && c.targetId != op.Target {
+		return
+	}
+
 	comment := Comment{
 		combinedId: combinedId,
 		targetId:   op.Target,
